@@ -187,7 +187,7 @@ func (env *Env) checkEvents(rs *RefState) string {
 				if len(ev["fallback"]) != wantFb || len(ev["failure"]) != wantFb || len(ev["success"]) != 1-wantFb {
 					return fmt.Sprintf("fallback %d on %s (failure=%v): OnFallbackExecuted x%d OnFailure x%d OnSuccess x%d", i, resStr(r), f, len(ev["fallback"]), len(ev["failure"]), len(ev["success"]))
 				}
-				if f && (ev["fallback"][0].V != s.FbV || ev["fallback"][0].E != s.FbE) {
+				if fv, fe := fbOutput(s, r.Result); f && (ev["fallback"][0].V != fv || ev["fallback"][0].E != fe) {
 					return fmt.Sprintf("fallback %d: OnFallbackExecuted carries (%d,%v)", i, ev["fallback"][0].V, ev["fallback"][0].E)
 				}
 			}
